@@ -21,10 +21,14 @@ def run(tier):
     fnf = 'lltdResponder/lltdBlock.c'
     rep.rule('R10.1', 'observer: a Probe/Train is recorded iff six header bytes equal the own address; those offsets are the filter field', floor=1)
     rep.rule('R10.2', 'emitter: in every Probe/Train the filter field carries the descriptor\'s destination address', floor=6)
+    rep.rule('R10.4', 'observer: a probe is discarded as already seen only if an entry with the same Ethernet source and the same real source exists', floor=1)
     rep.rule('R10.3', 'emitter: the field the observer records as source identity carries the emitter\'s own address; ToS/opcode reach the observer', floor=7)
     # ---- observer
     fs = FrameSetup(prog, mtu_ok=True)
+    fs.keep_iter_states = True
     res, obs, stats = run_regions(fs, regions=['topo.rest'], jobs=1)
+    from .c07 import dedupe_key_check
+    dedupe_key_check(rep, stats['topo.rest']['loops'], {f[0]: f[1] for f in fs.prec.fields}, 'R10.4', fnf)
     filt = None
     recorded = 0
     identity = None
